@@ -87,7 +87,9 @@ def to_open_api_3_0(schema: JsonSchema) -> Dict[str, Any]:
             if bound not in result or stricter(result[bound], value) == value:
                 result[bound], result[exclusive] = value, True
     if "examples" in result:
-        result.setdefault("example", result.pop("examples")[0])
+        examples = result.pop("examples")
+        if examples:  # an empty list of examples gives no example
+            result.setdefault("example", examples[0])
     if "const" in result:
         result.setdefault("enum", [result.pop("const")])
     return result
